@@ -230,11 +230,43 @@ PLANS["C10"] = Plan("C10", fault_models, post=fault_variation, extra=gen.byte_mu
                          "a debug-level logger (observations must agree); plus byte mutations / truncations of a stored index and "
                          "entry at every position; a process crash or deadlock of the real code inside a scenario is a violation; "
                          "non-trivial = an exchange with a fault, an origin failure or a logger comparison was judged")
-PLANS["C16"] = Plan("C16", lambda tier: [], extra=gen.concurrent, race=True, level="exploration",
-                    rule="(interim) free-running concurrent requests on one transport inside the synctest bubble, built with the Go race "
-                         "detector: same URI / same variant, other variants, other URIs, unsafe methods, stale-while-revalidate "
-                         "background refreshes; ownership monitors (response and request not written after return) and the "
-                         "history-independent sequential monitors evaluated by TLC on every reply")
+def conc_models(tier):
+    return [mc("MC_conc", "conc", Defects="{}", Tier=q(tier), Export="TRUE", replay_cap={"quick": 2500, "thorough": 60000})]
+
+
+def conc_scenarios(rows, tier, seed):
+    """the two concurrent exchanges of an MC_conc behaviour become one scheduled `conc` step: the gate releases the
+    store operations and origin calls of the two goroutines in the order the model produced"""
+    r = random.Random(seed * 982451653 + 53)
+    cap = 2500 if tier == "quick" else 60000
+    if len(rows) > cap:
+        rows = r.sample(rows, cap)
+    out = []
+    for i, row in enumerate(rows):
+        steps, par, at = [], {}, None
+        for st in row["steps"]:
+            if st.get("op") == "req" and st.get("x") in (3, 4):
+                if at is None:
+                    at = len(steps)
+                    steps.append(None)
+                par[st["x"]] = st
+            else:
+                steps.append(st)
+        if at is None or len(par) != 2:
+            continue
+        steps[at] = {"op": "conc", "par": [par[3], par[4]], "sched": [0 if x == 3 else 1 for x in row["gseq"] if x in (3, 4)]}
+        out.append({"id": "conc/%06d" % i, "backend": "fs" if i % 5 == 4 else "mem", "opt": {}, "steps": steps, "grp": "", "spv": 0})
+    return out
+
+
+PLANS["C16"] = Plan("C16", conc_models, extra=gen.concurrent, rows_to_scenarios=conc_scenarios, race=True, level="model_checking",
+                    rule="MC_conc: every interleaving, at the granularity of store operations and origin calls, of two concurrent "
+                         "requests (same variant, other variant, unsafe method; thorough: other URI, no-cache) and the background "
+                         "revalidation a stale-while-revalidate serve leaves behind, after a prefix that stored two variants, followed "
+                         "by two probes; exported by TLC with the order of the gated operations and replayed by gating the goroutines "
+                         "of the real transport at exactly those operations (quick: a seeded sample); plus free-running concurrent "
+                         "rounds; everything is built with the Go race detector; non-trivial = a reply produced during or after a "
+                         "concurrent phase, a mutation report or a race report was judged")
 def swr_models(tier):
     settings = [0, 1000, 999999] if tier == "quick" else [0, 1000, 2000, 5000, 10000, 999999]
     return [mc("MC_swr", "swr_%d" % s_, Defects="{}", Tier=q(tier), Export="TRUE", SwrSetting=str(s_)) for s_ in settings]
@@ -432,15 +464,23 @@ def drift_of(scn, events):
             if o["op"] in ("keys", "api_list") and e.get("st") != 501 and list(p["keys"]) != list(e["keys"]):
                 diffs.append("op%d keys: model %r code %r" % (i, p["keys"], e["keys"]))
         return diffs
-    preds = [s.get("pred") for s in scn["steps"] if s.get("op") == "req"]
-    rets = [e for e in events if e.get("ev") == "ret"]
+    preds = []
+    for s in scn["steps"]:
+        if s.get("op") == "req":
+            preds.append(s.get("pred"))
+        elif s.get("op") == "conc":
+            if not s.get("sched"):
+                return []  # free-running: no prediction
+            preds += [p.get("pred") for p in s["par"]]
+    byx = {e["x"]: e for e in events if e.get("ev") == "ret"}
+    rets = [byx.get(i + 1) for i in range(len(preds))]
     ops = {}
     for e in events:
         if e.get("ev") == "op" and e.get("bg") == 0:
             ops.setdefault(e["x"], []).append(e["kind"])
     diffs = []
     for i, (p, r) in enumerate(zip(preds, rets)):
-        if not p:
+        if not p or not r:
             continue
         for k in ("label", "st", "tok", "tag", "age", "err"):
             if p.get(k) != r.get(k):
